@@ -9,7 +9,7 @@
    defects D13 / D10b run the former counterexamples on the engine MODEL (Engine/Instance.v). *)
 From GM Require Import Base.Prelude Base.Outcome Codec.Packets Engine.Model Engine.Instance
   Client.Backoff Client.Impl Client.Driver Client.MiniEngine Client.ImplEngine
-  ClientProofs.ImplP ClientProofs.LifecycleW.
+  ClientProofs.ImplP ClientProofs.LifecycleW ClientProofs.EngineFactsP.
 Open Scope N_scope.
 
 (* compute_optional_state_transition, exhaustively: all 5 current x 5 desired x 3 stop-option shapes
@@ -83,6 +83,26 @@ Theorem C12_stop_stops :
               existsb is_attempt_ev evs = false.
 Proof. intros. eapply stop_stops_reach; eauto. Qed.
 
+(* the two-event form: in EVERY reachable state at the start of a loop iteration (no flush pending), a stop request — with or
+   without a DISCONNECT packet, unless it keeps the packet because a connection is established — followed by the end of that
+   iteration leaves the client Stopped with exactly one Stopped event (none if it already was Stopped) and no Attempt.
+   For tokio the first event alone already does it (the check follows every select! branch); DCheck is then a no-op. *)
+Theorem C12_stop_stops_two_events :
+  forall E U D e_tag e_user e_disc e_reset e_opened e_closed e_data e_wc e_service e_nst,
+  engine_facts E U D e_tag e_user e_disc e_reset e_opened e_closed e_data e_wc e_service ->
+  forall thr e0 bc timeout, e_tag e0 = TDisconnected -> forall h now now' d,
+  let s := reach E U D e_tag e_user e_disc e_reset e_opened e_closed e_data e_wc e_service e_nst thr e0 bc timeout h in
+  d_status s = Running -> d_flush s = false -> d_pos s = 0 ->
+  c_stop (handle_op E U D e_tag e_user e_disc e_reset (d_c s) now (OpStop d)) <> SDisc ->
+  let s2 := dstep E U D e_tag e_user e_disc e_reset e_opened e_closed e_data e_wc e_service e_nst thr
+              (dstep E U D e_tag e_user e_disc e_reset e_opened e_closed e_data e_wc e_service e_nst thr s now (DOp (OpStop d)))
+              now' DCheck in
+  d_status s2 = Running /\ cur s2 = CStopped /\ c_des (d_c s2) = CStopped /\
+  exists evs, d_log s2 = d_log s ++ evs /\
+              count_stopped evs = (if cstate_eqb (cur s) CStopped then 0 else 1)%nat /\
+              existsb is_attempt_ev evs = false.
+Proof. intros. eapply stop_stops_two_reach; eauto. Qed.
+
 (* since d52fbbc a stop request leaves the client waiting for a DISCONNECT only if a connection is established (the engine is
    Connected after the DISCONNECT was submitted, so it has queued it): in every reachable state of either driver *)
 Theorem C12_stop_waits_only_when_established :
@@ -117,6 +137,12 @@ Theorem C12_close_terminal :
   existsb is_attempt_ev (skipn (length (d_log s)) (d_log s')) = false /\
   drun E U D e_tag e_user e_disc e_reset e_opened e_closed e_data e_wc e_service e_nst thr s' k = s'.
 Proof. intros. eapply close_terminal_reach; eauto. Qed.
+
+(* the engine MODEL (Engine/Instance.v) satisfies the ConnectionOpened fact in every state (the other facts are
+   evaluated on the real engine at run time; see ClientProofs/EngineFactsP.v for what they would need) *)
+Theorem C12_engine_model_opened : forall cfg e now dl,
+  fact_opened (ie_tag e) (is_ok (snd (ie_opened cfg e now dl))) (ie_tag (fst (ie_opened cfg e now dl))) = true.
+Proof. exact ie_fact_opened. Qed.
 
 (* non-vacuity: the engine facts are satisfiable, and a stop-with-DISCONNECT on an ESTABLISHED connection stops *)
 Example C12_engine_facts_satisfiable :
